@@ -199,6 +199,10 @@ fn diff_ops() -> Vec<Value> {
 		MOp::Path(Op::SymAppend(b("../x/./"))),
 		MOp::Auth(AOp::SetUserinfo(None)),
 		MOp::Auth(AOp::SetUserinfo(Some(b("w")))),
+		// spellings that are == to what the domain holds ("u", "h") without being the same text
+		MOp::Auth(AOp::SetUserinfo(Some(b("%75")))),
+		MOp::Auth(AOp::SetHost(b("%68"))),
+		MOp::Auth(AOp::SetHost(b("caf%c3%a9"))),
 		MOp::Auth(AOp::SetHost(b("hostname"))),
 		MOp::Auth(AOp::SetHost(b(""))),
 		MOp::Auth(AOp::SetPort(None)),
